@@ -1,14 +1,18 @@
 (* C14 -- Peers converge on one shared live connection; lookups never hang.
-   Property theorems only; proofs live in lib/ConvergeProofs.v.
+   Property theorems only; proofs live in lib/ConvergeProofs.v and lib/ConvergeHist.v.
    `compare_offer` is the translation of Negotiation.compareOfferAndExisting (gen/ConvergeGen.v);
    `run ops` is the state of the two-Tub model lib/Converge.v after ANY finite sequence of operations
-   (lookups, dialled hints, block deliveries in any order, cuts, close notifications, restarts, time-outs). *)
+   (lookups, dialled hints, block deliveries in any order, cuts, close notifications, restarts, forced time-outs,
+   passage of virtual time with the connector and negotiation timers, retries armed for the next errback,
+   changes of the handle-old option). *)
 From Coq Require Import ZArith List Bool.
 Import ListNotations.
-Require Import Verif.lib.PyLite Verif.gen.ConvergeGen Verif.lib.Converge Verif.lib.ConvergeProofs.
+Require Import Verif.lib.PyLite Verif.gen.ConvergeGen Verif.lib.Converge Verif.lib.ConvergeProofs Verif.lib.ConvergeHist.
 
 (* "the system settles so that either each side's current connection to the other is the two ends of one and
-   the same connection, or neither side has one": at quiescence (nothing in flight, every close seen by both ends)
+   the same connection, or neither side has one": at quiescence (nothing in flight, every close seen by both ends:
+   a half-open connection whose loss one end has not been told about is by definition not quiescent; the model has
+   two Tubs, a third one exists only in the oracle runs)
    M's current connection is c exactly when S's is c -- for every schedule, cut, restart and history. *)
 Theorem C14_agree_at_quiescence : forall ops,
   quiescent (run ops) ->
@@ -25,6 +29,13 @@ Proof. exact broker_is_live_end. Qed.
 Print Assumptions C14_current_is_live_end.
 
 (* "an established healthy connection is not displaced by a redundant attempt from the same peer incarnation":
+   DECISION LEVEL (this theorem, about the translated function) and STEP LEVEL (C14_model_redundant_not_displacing below:
+   in ANY state of the two-Tub model, an in-flight offer with this content leaves the master's Tub untouched).
+   NOT proved as a statement about `run ops`: that whenever a connection is healthy at both ends, every offer of the
+   same incarnation still in flight has this content (it needs the invariant that the non-master dials only while it
+   has no current connection, so that the record in its hello is older than the connection it holds) -- and with a
+   record naming a past life of the master it is false (C14_not_displaced_refuted).  On the real Tubs this is what the
+   oracle families `redundant` and `one-sided-cut` check (exactly one of the parallel offers accepted).
    PARTIAL.  Proved for offers that carry "none" or an older seqnum of this master incarnation.
    The full statement (every offer of the same incarnation that does not know the existing connection is refused)
    is FALSE for the code, see C14_not_displaced_refuted: what is missing is the case last_ir <> my_ir. *)
@@ -67,44 +78,112 @@ Theorem C14_old_peer : forall o_inc o_last e_ir e_seq my_ir age,
 Proof. exact compare_old_peer. Qed.
 Print Assumptions C14_old_peer.
 
-(* "Every getReference fires": when the connector is gone -- success, every attempt failed, or time-out --
-   nobody is left waiting *)
-Theorem C14_waiters_fire : forall ops x,
-  t_connector (tubof x (run ops)) = None -> t_waiters (tubof x (run ops)) = 0.
-Proof. exact waiters_fire. Qed.
-Print Assumptions C14_waiters_fire.
+(* the two decision sentences lifted to the two-Tub model (composition of the translated decision function with the
+   master's step): a redundant offer of the connected incarnation leaves the master's Tub and every other connection
+   exactly as they were and is hung up; an offer of another incarnation becomes the master's current connection *)
+Theorem C14_model_redundant_not_displacing : forall s c inc lir lseq rest e,
+  Nat.ltb c (nconn s) = true -> c_qsm (conns s c) = Hello inc (Some (lir, lseq)) :: rest -> c_m (conns s c) = ENeg ->
+  t_broker (tm s) = Some e -> t_bir (tm s) = Some inc ->
+  (lir = IR_NONE \/ (lir = t_inc (tm s) /\ (lseq < t_bseq (tm s))%Z)) ->
+  let s' := step s (Deliver c TM) in
+  tm s' = tm s /\ ts s' = ts s /\ (forall j, j <> c -> conns s' j = conns s j) /\ c_m (conns s' c) = ECloNeg.
+Proof. exact model_redundant_not_displacing. Qed.
+Print Assumptions C14_model_redundant_not_displacing.
 
-(* "... within the connection timeout": whoever waits has a live connector, whose timer (CONNECTION_TIMEOUT,
-   armed in TubConnector.connect) answers every lookup that was waiting when it fires; a lookup issued synchronously
-   from inside one of those errbacks (instant retry, re-entrant getReference) again waits on a live connector of its
-   own -- this uses the order of effects read from Tub.connectionFailed (connection_failed_forgets_first) *)
-Theorem C14_timeout_answers_all : forall ops x,
-  let s := run ops in let s' := step s (Timeout x) in
-  (t_waiters (tubof x s) <> 0 -> t_connector (tubof x s) <> None) /\
-  t_fired (tubof x s') = t_fired (tubof x s) + t_waiters (tubof x s) /\
-  (t_waiters (tubof x s') <> 0 -> t_connector (tubof x s') <> None) /\
-  (t_retry (tubof x s) = false -> t_waiters (tubof x s') = 0).
-Proof. exact timeout_answers_all. Qed.
-Print Assumptions C14_timeout_answers_all.
+Theorem C14_model_restart_displaces : forall s c inc last rest e,
+  Nat.ltb c (nconn s) = true -> c_qsm (conns s c) = Hello inc (Some last) :: rest -> c_m (conns s c) = ENeg ->
+  t_broker (tm s) = Some e -> t_bir (tm s) <> Some inc ->
+  let s' := step s (Deliver c TM) in
+  t_broker (tm s') = Some c /\ t_bir (tm s') = Some inc /\ t_bseq (tm s') = (t_master (tm s) + seqnum_step)%Z /\
+  t_master (tm s') = (t_master (tm s) + seqnum_step)%Z /\ t_bcreated (tm s') = now s.
+Proof. exact model_restart_displaces. Qed.
+Print Assumptions C14_model_restart_displaces.
 
-(* no lookup is lost: made = answered + still waiting, and nobody waits while a connection exists *)
+(* "Every getReference fires (success or failure) within the connection timeout".  Lookups are numbered per Tub
+   incarnation; the model has virtual time (`now`), every TubConnector an armed deadline, the listening end of every
+   connection its own negotiation timer; `Advance dt` lets time pass up to the next armed timer and fires what is due.
+   For every schedule (including any passage of time, forced timer firings, retries from errbacks):
+   a lookup number that has been handed out is either answered -- at a time within CONNECTION_TIMEOUT of the lookup --
+   or still waiting, and then its time-out has not been reached yet. *)
+Theorem C14_every_lookup_fires_within_timeout : forall ops x w,
+  let t := tubof x (run ops) in
+  w < t_issued t ->
+  (exists f, In f (t_fired t) /\ f_id f = w /\ (f_reg f <= f_at f <= f_reg f + CONNECTION_TIMEOUT)%Z) \/
+  (exists r, In (w, r) (t_waiters t) /\ (r <= now (run ops) < r + CONNECTION_TIMEOUT)%Z).
+Proof. exact every_lookup_fires_within_timeout. Qed.
+Print Assumptions C14_every_lookup_fires_within_timeout.
+
+(* ... exactly once: the numbers of the answered and of the waiting lookups together are 0 .. issued-1, each once
+   (none lost, none answered twice, none both answered and waiting); nobody waits while a connection exists *)
 Theorem C14_lookups_accounted : forall ops x,
-  t_issued (tubof x (run ops)) = t_fired (tubof x (run ops)) + t_waiters (tubof x (run ops)) /\
-  (t_broker (tubof x (run ops)) <> None -> t_waiters (tubof x (run ops)) = 0).
+  let t := tubof x (run ops) in
+  NoDup (map f_id (t_fired t) ++ map fst (t_waiters t)) /\
+  (forall w, In w (map f_id (t_fired t) ++ map fst (t_waiters t)) <-> w < t_issued t) /\
+  (t_broker t <> None -> t_waiters t = []).
 Proof. exact lookups_accounted. Qed.
 Print Assumptions C14_lookups_accounted.
 
-(* "for all histories of previous connections recorded by either side": when the non-master accepts the master's
-   decision on connection c -- whoever dialled c -- it records (master incarnation, seqnum) of that decision and c
-   becomes its current connection.  (This is what lets its next offer, after a cut only it has noticed, prove
+(* every recorded answer lies within the bound (and not in the future) *)
+Theorem C14_fired_within_timeout : forall ops x f,
+  In f (t_fired (tubof x (run ops))) ->
+  (f_reg f <= f_at f)%Z /\ (f_at f <= f_reg f + CONNECTION_TIMEOUT)%Z /\ (f_at f <= now (run ops))%Z.
+Proof. exact fired_within_timeout. Qed.
+Print Assumptions C14_fired_within_timeout.
+
+(* whoever waits has a live connector whose armed timer lies strictly in the future and at most CONNECTION_TIMEOUT
+   after the lookup *)
+Theorem C14_waiting_has_armed_timer : forall ops x w r,
+  In (w, r) (t_waiters (tubof x (run ops))) ->
+  t_connector (tubof x (run ops)) <> None /\
+  (r <= now (run ops))%Z /\ (now (run ops) < t_deadline (tubof x (run ops)))%Z /\
+  (t_deadline (tubof x (run ops)) <= r + CONNECTION_TIMEOUT)%Z.
+Proof. exact waiting_has_armed_timer. Qed.
+Print Assumptions C14_waiting_has_armed_timer.
+
+(* the bound is not vacuous: the model never blocks the clock *)
+Theorem C14_time_passes : forall ops dt, (0 < dt)%Z -> (now (run ops) < now (step (run ops) (Advance dt)))%Z.
+Proof. exact time_passes. Qed.
+Print Assumptions C14_time_passes.
+
+(* when the connector is gone -- success, every attempt failed, or time-out -- nobody is left waiting *)
+Theorem C14_waiters_fire : forall ops x,
+  t_connector (tubof x (run ops)) = None -> t_waiters (tubof x (run ops)) = [].
+Proof. exact waiters_fire. Qed.
+Print Assumptions C14_waiters_fire.
+
+(* the connector's timer (forced): every lookup that was waiting is errbacked at that moment; without an armed retry
+   nobody waits afterwards (with one, the retry waits on a connector of its own: C14_waiting_has_armed_timer) -- this
+   uses the order of effects read from Tub.connectionFailed (connection_failed_forgets_first) *)
+Theorem C14_timeout_answers_all : forall ops x,
+  let s := run ops in let s' := step s (Timeout x) in
+  (t_waiters (tubof x s) <> [] -> t_connector (tubof x s) <> None) /\
+  (t_retry (tubof x s) = false -> t_waiters (tubof x s') = []) /\
+  (forall w r, In (w, r) (t_waiters (tubof x s)) -> t_broker (tubof x s) = None /\
+     In (mkfired w r (now s) false) (t_fired (tubof x s'))).
+Proof. exact timeout_answers_all. Qed.
+Print Assumptions C14_timeout_answers_all.
+
+(* "for all histories of previous connections recorded by either side": for every schedule, whenever both Tubs hold
+   the same current connection, the non-master's slave_table record is exactly (master incarnation, seqnum of that
+   connection) -- whoever dialled it.  (This is what lets its next offer, after a cut only it has noticed, prove
    knowledge of the master's stale connection: C14_equal_seqnum_accepted.)  Uses slave_table_recorded_always, read
-   from acceptDecisionVersion1.
-   PARTIAL: one step.  Not proved: the invariant over all schedules
-     t_broker (tm s) = Some c -> t_broker (ts s) = Some c -> t_slave (ts s) = Some (t_inc (tm s), t_bseq (tm s))
-   (what is missing: that every Decision in flight on the master's current connection carries the master's current
-   incarnation and seqnum); it is checked on the real Tubs by the trace correspondence and the one-sided-cut oracle. *)
-Theorem C14_slave_records_decision_partial : forall c s i q rest,
+   from acceptDecisionVersion1; proved with the invariant that every decision in flight on the master's current
+   connection carries the master's current incarnation and seqnum (lib/ConvergeHist.v). *)
+Theorem C14_slave_record_agrees : forall ops c,
+  t_broker (tm (run ops)) = Some c -> t_broker (ts (run ops)) = Some c ->
+  t_slave (ts (run ops)) = Some (t_inc (tm (run ops)), t_bseq (tm (run ops))).
+Proof. exact slave_record_agrees. Qed.
+Print Assumptions C14_slave_record_agrees.
+
+Theorem C14_decisions_in_flight_current : forall ops c i q,
+  t_broker (tm (run ops)) = Some c -> In (Decision i q) (c_qms (conns (run ops) c)) ->
+  i = t_inc (tm (run ops)) /\ q = t_bseq (tm (run ops)).
+Proof. exact decisions_in_flight_current. Qed.
+Print Assumptions C14_decisions_in_flight_current.
+
+(* the step that establishes it: accepting the decision on c records it and makes c current *)
+Theorem C14_slave_records_decision : forall c s i q rest,
   Nat.ltb c (nconn s) = true -> c_qms (conns s c) = Decision i q :: rest -> c_s (conns s c) = EDec ->
   t_slave (ts (step s (Deliver c TS))) = Some (i, q) /\ t_broker (ts (step s (Deliver c TS))) = Some c.
 Proof. exact slave_records_decision. Qed.
-Print Assumptions C14_slave_records_decision_partial.
+Print Assumptions C14_slave_records_decision.
